@@ -43,6 +43,8 @@ USER_SRC = {
                    "class AddNumbers(Command):\n    name = 'Add'  # documented explicit naming: the command name differs from the class name\n    def execute(self, **kw):\n        return 'upkg.sub.Add'\n",
     "upkg2/__init__.py": "",
     "upkg2/deep.py": "from mpilot.commands import Command\n\nclass Theta(Command):\n    def execute(self, **kw):\n        return 'upkg2.deep.Theta'\n",
+    # a site library that specialises a command of another library under the SAME name (derived class): still two libraries defining one name
+    "ulib3.py": "from ulib import Alpha as _Base\n\nclass Alpha(_Base):\n    def execute(self, **kw):\n        return 'ulib3.Alpha'\n",
     "upkgx.py": "from mpilot.commands import Command\n\nclass Zeta(Command):\n    def execute(self, **kw):\n        return 'upkgx.Zeta'\n",
 }
 KNOWN = None
@@ -75,7 +77,7 @@ def _known():
             k.append((E + ".csv.io", name))
         for name in SIG.NETCDF_IO:
             k.append((E + ".netcdf.io", name))
-        k += [("ulib", "Alpha"), ("ulib", "Beta"), ("ulib_extra", "Gamma"), ("ulib_extra", "GammaTwin"), ("ulib2", "Alpha"), ("upkg", "Eps"), ("upkg.sub", "Delta"), ("upkg.sub", "Add"), ("upkgx", "Zeta"), ("upkg2.deep", "Theta")]
+        k += [("ulib", "Alpha"), ("ulib", "Beta"), ("ulib_extra", "Gamma"), ("ulib_extra", "GammaTwin"), ("ulib2", "Alpha"), ("ulib3", "Alpha"), ("upkg", "Eps"), ("upkg.sub", "Delta"), ("upkg.sub", "Add"), ("upkgx", "Zeta"), ("upkg2.deep", "Theta")]
         KNOWN = k
     return KNOWN
 
@@ -130,7 +132,7 @@ def prepare(tier):
             f.write("from mpilot.commands import Command\n\nclass Score(Command):\n    def execute(self, **kw):\n        return 'wdlib of %s'\n" % which)
     _WD[0] = os.path.join(d, "_wd")
     sys.path.insert(0, d)
-    loaded = [m for m in sys.modules if m.startswith("mpilot.libraries.") or m.split(".")[0] in ("ulib", "ulib_extra", "ulib2", "upkg", "upkgx", "upkg2")]
+    loaded = [m for m in sys.modules if m.startswith("mpilot.libraries.") or m.split(".")[0] in ("ulib", "ulib_extra", "ulib2", "ulib3", "upkg", "upkgx", "upkg2")]
     if loaded:
         raise RuntimeError("libraries already imported in the parent process: %r" % loaded)
 
@@ -193,6 +195,13 @@ def cases(tier):
         for h in [[]] + [[e] for e in wd_events] + [[wd_events[0], wd_events[1]], [wd_events[1], wd_events[0]], [("program", ("ulib",)), wd_events[0]]]:
             if lastev[0] == "program-wd" or any(e[0] == "program-wd" for e in h):
                 yield (h, lastev)
+    # the derived same-named command (ulib3.Alpha derives from ulib.Alpha; importing ulib3 imports ulib): alone it resolves to the derived class,
+    # together with ulib (either order) or ulib2 the construction fails - from the empty history and after either library was used
+    d_probes = [("ulib3",), ("ulib", "ulib3"), ("ulib3", "ulib"), ("ulib3", "ulib2"), ("ulib2", "ulib3"), ("ulib3", "ulib_extra"), ("ulib",)]
+    for t in d_probes:
+        yield ([], ("program", t))
+        for f in [("program", ("ulib",)), ("program", ("ulib3",)), ("import", "ulib3"), ("program", ("ulib3", "ulib_extra"))]:
+            yield ([f], ("program", t))
     if tier == "thorough":
         small = [E + ".basic", E + ".csv", "ulib", "ulib_extra", "ulib2", "upkg"]
         evs = _events(small, 1) + [("program", t) for t in itertools.permutations(small, 2) if t[0].startswith("u") or t[1].startswith("u")]
